@@ -495,7 +495,7 @@ func (p *Plugin) serveBulk(w http.ResponseWriter, r *http.Request, meta metadata
 	p.requestsInProgress.Inc()
 
 	reader := io.Reader(r.Body)
-	if r.Header.Get("Content-Encoding") == "gzip" {
+	if strings.EqualFold(r.Header.Get("Content-Encoding"), "gzip") {
 		zr, err := p.acquireGzipReader(reader)
 		if err != nil {
 			p.errorsTotal.Inc()
